@@ -30,6 +30,11 @@ fn main() {
                 None => { println!("{}", json!({"error": format!("unknown case {}", a[2])})); std::process::exit(3) }
             }
         }
+        "list" => {
+            let seed: u64 = a.get(3).and_then(|s| s.parse().ok()).unwrap_or(0);
+            let open: Vec<String> = a.get(4).map(|s| s.split(',').map(|x| x.to_string()).collect()).unwrap_or_default();
+            match cases::list(&a[2], seed, &open) { Some(v) => println!("{}", Value::Array(v)), None => { println!("{}", json!({"error": "no such case"})); std::process::exit(3) } }
+        }
         "search" => {
             let seed: u64 = a.get(3).and_then(|s| s.parse().ok()).unwrap_or(0);
             let open: Vec<String> = a.get(4).map(|s| s.split(',').map(|x| x.to_string()).collect()).unwrap_or_default();
